@@ -75,13 +75,17 @@ def save_restore(ctx):
     init = F(ctx, "parallel_config.__init__")
     g = cfg_of(init)
     reads = [a for a in assigns_to(init, "self.old_parallel_config")]
-    ctx.need(reads, "parallel_config.__init__ no longer saves the previous configuration")
+    if not reads:
+        ctx.bad(init, "parallel_config.__init__ no longer saves the previous configuration: nothing can be restored on exit", key=PAR + "::parallel_config.__init__::save of the previous configuration")
+        return
     for a in reads:
         v = a.value
         ctx.check(isinstance(v, ast.Call) and call_name(v) == "getattr" and dotted(v.args[0]) == "_backend" and const_value(v.args[1]) == "config" and len(v.args) == 3 and dotted(v.args[2]) == "default_parallel_config",
                   a, "previous configuration = getattr(_backend, 'config', default_parallel_config)")
     sets = [c for c in calls_in(init) if call_name(c) == "setattr" and dotted(c.args[0]) == "_backend"]
-    ctx.need(sets, "parallel_config.__init__ no longer installs the configuration")
+    if not sets:
+        ctx.bad(init, "parallel_config.__init__ no longer installs the new configuration in the thread-local", key=PAR + "::parallel_config.__init__::install")
+        return
     for c in sets:
         ctx.check(g.every_path_to(g.nodes_of(c), g.nodes_of_all(reads)), c, "the previous configuration is read before the new one is installed",
                   "the new configuration is installed before the previous one was saved: exit restores the wrong settings")
